@@ -379,7 +379,7 @@ Proof. intros H. rewrite <- !find_meta_E, H. reflexivity. Qed.
 Lemma decl_type_sim metas metas' ty name :
   map E_meta metas = map E_meta metas' -> nt (decl_type metas ty name) = nt (decl_type metas' ty name).
 Proof.
-  intros H. pose proof (find_meta_sim _ _ name H) as Hf. unfold decl_type.
+  intros H. pose proof (find_meta_sim _ _ name H) as Hf. unfold decl_type. destruct ty as [ty|]; [reflexivity|].
   destruct (find_meta metas name) as [m|]; destruct (find_meta metas' name) as [m'|]; cbn [option_map] in Hf; try discriminate; [|reflexivity].
   inversion Hf as [[Hn Ha]]. destruct (vm_attr m) as [t|c| |tg t|alg t|i pn r [q|]|k ps|]; destruct (vm_attr m') as [t'|c'| |tg' t'|alg' t'|i' pn' r' [q'|]|k' ps'|];
     cbn [E_attr] in Ha; try discriminate; try reflexivity.
@@ -1256,11 +1256,7 @@ Qed.
 Lemma decl_type_respell basic dyn metas ty name : basic_ok basic -> dyn_wf_ty ty = true ->
   nt (decl_type metas (option_map (respell_type basic dyn) ty) name) = nt (decl_type metas ty name).
 Proof.
-  intros Hb Hwf. unfold decl_type.
-  assert (Ht : nt (match option_map (respell_type basic dyn) ty with Some t => type_text t | None => name end) =
-               nt (match ty with Some t => type_text t | None => name end)).
-  { destruct ty as [ty|]; [|reflexivity]. cbn [option_map]. apply nt_type_text_respell; assumption. }
-  destruct (find_meta metas name) as [m|]; [|exact Ht]. destruct (vm_attr m); try reflexivity; exact Ht.
+  intros Hb Hwf. unfold decl_type. destruct ty as [ty|]; [|reflexivity]. cbn [option_map]. apply nt_type_text_respell; assumption.
 Qed.
 
 Lemma leaf_types basic dyn : basic_ok basic -> leaf_ok (guarded dyn_wf (fd_types (respell_type basic dyn))).
@@ -1836,36 +1832,36 @@ Proof. reflexivity. Qed.
 Definition prefixed_type (ty : type_) : option string :=
   match ty with TyBasic _ _ => Some (type_text ty) | TyDynamic _ _ => Some "string" | TyFixed _ _ => None end.
 
-(* the inline spelling takes the type of the MetaData entry that has the NAME of the field, when there is one *)
-Definition ty_ok (ms : list vmeta) (ty : type_) (name : string) : bool :=
-  match prefixed_type ty with Some s => String.eqb (nt (decl_type ms (Some ty) name)) (nt s) | None => false end.
+(* the inline spelling keeps the written type as it is written *)
+Definition ty_ok (ty : type_) : bool :=
+  match prefixed_type ty with Some s => String.eqb (nt (type_text ty)) (nt s) | None => false end.
 
-Definition prefix_ok (ms : list vmeta) (fw : field_with_attr) : bool :=
+Definition prefix_ok (fw : field_with_attr) : bool :=
   match fw_def fw with
-  | LengthField _ d => match lf_type d with Some ty => ty_ok ms ty (p_text (lf_name d)) | None => true end
-  | CheckSumField _ d => match ck_type d with Some ty => ty_ok ms ty (p_text (ck_name d)) | None => true end
+  | LengthField _ d => match lf_type d with Some ty => ty_ok ty | None => true end
+  | CheckSumField _ d => match ck_type d with Some ty => ty_ok ty | None => true end
   | _ => true
   end.
 
-Definition prefix_attr_guard (t : pt) : bool := fws_all (prefix_ok (file_metas t)) t.
+Definition prefix_attr_guard (t : pt) : bool := fws_all prefix_ok t.
 
-Lemma fw_prefix_sim ms fw st : prefix_ok ms fw = true ->
+Lemma fw_prefix_sim ms fw st : prefix_ok fw = true ->
   E_fres (visit_field_with_attr ms (fw_prefix fw) st) = E_fres (visit_field_with_attr ms fw st).
 Proof.
   unfold prefix_ok, fw_prefix. destruct (fw_def fw) as [| | |sp d|sp d|] eqn:Hdef; try reflexivity.
   - destruct (lf_type d) as [ty|] eqn:Hty; [|reflexivity]. unfold ty_ok. destruct (prefixed_type ty) as [s|] eqn:Hp; [|discriminate].
     intros Hok. apply String.eqb_eq in Hok.
     unfold visit_field_with_attr. cbn [fw_def fw_attrs fw_span]. rewrite Hdef. cbn [visit_field_def is_some]. unfold meta_decl_field, meta_decl_attr.
-    cbn [md_type md_name md_doc md_span]. unfold visit_length_field. rewrite Hty.
+    cbn [md_type md_name md_doc md_span]. unfold visit_length_field. rewrite Hty. unfold decl_type.
     destruct ty as [tsp b|tsp f|tsp k]; cbn [prefixed_type] in Hp; try discriminate Hp; inversion Hp; subst s;
       cbn [apply_attrs apply_attr vf_attr is_plain_object field_get_type set_attr].
     + change (field_type_norm (BModel.get_basic_type (type_text (TyBasic tsp b)))) with (nt (type_text (TyBasic tsp b))).
-      set (f1 := mkVField _ (VALen _ (nt _)) _ _ _ _ _). set (f2 := mkVField _ (VALen _ (decl_type _ _ _)) _ _ _ _ _).
-      assert (Hf : E_field f1 = E_field f2). { unfold f1, f2. cbn [E_field E_attr]. rewrite nt_idem, <- Hok. reflexivity. }
+      set (f1 := mkVField _ (VALen _ (nt _)) _ _ _ _ _). set (f2 := mkVField _ (VALen _ (type_text _)) _ _ _ _ _).
+      assert (Hf : E_field f1 = E_field f2). { unfold f1, f2. cbn [E_field E_attr]. rewrite nt_idem. reflexivity. }
       pose proof (apply_attrs_sim (start_line (fw_span fw)) (start_line (fw_span fw)) (fw_attrs fw) f1 f2 st Hf) as Hs.
       destruct (E_fres_inv _ _ Hs) as [[e [-> ->]]|[g1 [st1 [ds1 [g2 [ds2 [-> [-> [Hg Hd]]]]]]]]]; [reflexivity|].
       cbn [E_fres app map]. rewrite Hg, Hd. reflexivity.
-    + set (f1 := mkVField _ (VALen _ "string") _ _ _ _ _). set (f2 := mkVField _ (VALen _ (decl_type _ _ _)) _ _ _ _ _).
+    + set (f1 := mkVField _ (VALen _ "string") _ _ _ _ _). set (f2 := mkVField _ (VALen _ (type_text _)) _ _ _ _ _).
       assert (Hf : E_field f1 = E_field f2). { unfold f1, f2. cbn [E_field E_attr]. rewrite <- Hok. reflexivity. }
       pose proof (apply_attrs_sim (start_line (fw_span fw)) (start_line (fw_span fw)) (fw_attrs fw) f1 f2 st Hf) as Hs.
       destruct (E_fres_inv _ _ Hs) as [[e [-> ->]]|[g1 [st1 [ds1 [g2 [ds2 [-> [-> [Hg Hd]]]]]]]]]; [reflexivity|].
@@ -1873,16 +1869,16 @@ Proof.
   - destruct (ck_type d) as [ty|] eqn:Hty; [|reflexivity]. unfold ty_ok. destruct (prefixed_type ty) as [s|] eqn:Hp; [|discriminate].
     intros Hok. apply String.eqb_eq in Hok.
     unfold visit_field_with_attr. cbn [fw_def fw_attrs fw_span]. rewrite Hdef. cbn [visit_field_def is_some]. unfold meta_decl_field, meta_decl_attr.
-    cbn [md_type md_name md_doc md_span]. unfold visit_checksum_field. rewrite Hty.
+    cbn [md_type md_name md_doc md_span]. unfold visit_checksum_field. rewrite Hty. unfold decl_type.
     destruct ty as [tsp b|tsp f|tsp k]; cbn [prefixed_type] in Hp; try discriminate Hp; inversion Hp; subst s;
       cbn [apply_attrs apply_attr vf_attr is_plain_object field_get_type set_attr].
     + change (field_type_norm (BModel.get_basic_type (type_text (TyBasic tsp b)))) with (nt (type_text (TyBasic tsp b))).
-      set (f1 := mkVField _ (VACheck _ (nt _)) _ _ _ _ _). set (f2 := mkVField _ (VACheck _ (decl_type _ _ _)) _ _ _ _ _).
-      assert (Hf : E_field f1 = E_field f2). { unfold f1, f2. cbn [E_field E_attr]. rewrite nt_idem, <- Hok. reflexivity. }
+      set (f1 := mkVField _ (VACheck _ (nt _)) _ _ _ _ _). set (f2 := mkVField _ (VACheck _ (type_text _)) _ _ _ _ _).
+      assert (Hf : E_field f1 = E_field f2). { unfold f1, f2. cbn [E_field E_attr]. rewrite nt_idem. reflexivity. }
       pose proof (apply_attrs_sim (start_line (fw_span fw)) (start_line (fw_span fw)) (fw_attrs fw) f1 f2 st Hf) as Hs.
       destruct (E_fres_inv _ _ Hs) as [[e [-> ->]]|[g1 [st1 [ds1 [g2 [ds2 [-> [-> [Hg Hd]]]]]]]]]; [reflexivity|].
       cbn [E_fres app map]. rewrite Hg, Hd. reflexivity.
-    + set (f1 := mkVField _ (VACheck _ "string") _ _ _ _ _). set (f2 := mkVField _ (VACheck _ (decl_type _ _ _)) _ _ _ _ _).
+    + set (f1 := mkVField _ (VACheck _ "string") _ _ _ _ _). set (f2 := mkVField _ (VACheck _ (type_text _)) _ _ _ _ _).
       assert (Hf : E_field f1 = E_field f2). { unfold f1, f2. cbn [E_field E_attr]. rewrite <- Hok. reflexivity. }
       pose proof (apply_attrs_sim (start_line (fw_span fw)) (start_line (fw_span fw)) (fw_attrs fw) f1 f2 st Hf) as Hs.
       destruct (E_fres_inv _ _ Hs) as [[e [-> ->]]|[g1 [st1 [ds1 [g2 [ds2 [-> [-> [Hg Hd]]]]]]]]]; [reflexivity|].
@@ -1891,13 +1887,440 @@ Qed.
 
 Theorem rw_prefix_attr_erasure t : prefix_attr_guard t = true -> E_outcome (visit (rw_prefix_attr t)) = E_outcome (visit t).
 Proof.
-  intros Hg. rewrite rw_prefix_attr_eq, <- (on_fws_guarded (prefix_ok (file_metas t))) by exact Hg. apply visit_fws_at.
-  intros fw st. unfold guarded_fw. destruct (prefix_ok (file_metas t) fw) eqn:Hw; [apply fw_prefix_sim; exact Hw|reflexivity].
+  intros Hg. rewrite rw_prefix_attr_eq, <- (on_fws_guarded prefix_ok) by exact Hg. rewrite on_fws_dm. apply visit_def_map. apply dm_ok_fws.
+  intros metas fw st. unfold guarded_fw. destruct (prefix_ok fw) eqn:Hw; [apply fw_prefix_sim; exact Hw|reflexivity].
 Qed.
 
 Theorem rw_prefix_attr_preserves : forall t r, visit t = VOk r -> r_diags r = [] -> prefix_attr_guard t = true ->
   exists r', visit (rw_prefix_attr t) = VOk r' /\ same_meaning r r' = true.
 Proof. intros t r Hv Hd Hg. eapply preserves_of_erasure; [|exact Hv|exact Hd]. apply rw_prefix_attr_erasure. exact Hg. Qed.
+
+
+(* ================================================================== the default padding
+   When no padding option is declared the configured padding is @rightPad(' '): a string object without padding and
+   one with that padding mean the same.  Pst fills the default in; the visitor never reads the padding of an object,
+   so it maps stores that agree after Pst to such stores, everything else being EQUAL. *)
+
+Definition dpad : BModel.padding := BModel.mkPad "' '" false.
+Definition Pc (c : fcell) : fcell := mkCell (fc_len c) (match fc_pad c with None => Some dpad | p => p end).
+Definition Pst (st : list fcell) : list fcell := map Pc st.
+
+Definition P_fres (x : res (vfield * list fcell * list diag)) : res (vfield * list fcell * list diag) :=
+  match x with ROk (f, st, ds) => ROk (f, Pst st, ds) | RPanic e => RPanic e end.
+
+Lemma Pst_length st1 st2 : Pst st1 = Pst st2 -> length st1 = length st2.
+Proof. intros H. apply (f_equal (@length _)) in H. unfold Pst in H. rewrite !map_length in H. exact H. Qed.
+
+Lemma Pst_snoc st1 st2 c1 c2 : Pst st1 = Pst st2 -> Pc c1 = Pc c2 -> Pst (snoc st1 c1) = Pst (snoc st2 c2).
+Proof. intros H1 H2. unfold Pst, snoc in *. rewrite !map_app, H1. cbn. rewrite H2. reflexivity. Qed.
+
+Lemma set_cell_pad_P c p : forall st1 st2, Pst st1 = Pst st2 -> Pst (set_cell_pad st1 c p) = Pst (set_cell_pad st2 c p).
+Proof.
+  unfold set_cell_pad. induction c as [|c IH]; intros st1 st2 H; destruct st1 as [|x1 r1]; destruct st2 as [|x2 r2]; try discriminate H; try reflexivity;
+    pose proof (f_equal (@hd fcell (Pc x1)) H) as Hx; pose proof (f_equal (@tl fcell) H) as Hr; cbn [Pst map hd tl] in Hx, Hr; fold (Pst r1) in Hr; fold (Pst r2) in Hr; cbn [nth_error upd_nth].
+  - cbn [Pst map]. f_equal; [|exact Hr]. unfold Pc in *. cbn [fc_len fc_pad]. inversion Hx. reflexivity.
+  - specialize (IH r1 r2 Hr). destruct (nth_error r1 c) as [c1|] eqn:H1; destruct (nth_error r2 c) as [c2|] eqn:H2.
+    + cbn [Pst map]. f_equal; [exact Hx|exact IH].
+    + exfalso. apply nth_error_None in H2. assert (nth_error r1 c <> None) by congruence. apply nth_error_Some in H0. apply Pst_length in Hr. lia.
+    + exfalso. apply nth_error_None in H1. assert (nth_error r2 c <> None) by congruence. apply nth_error_Some in H0. apply Pst_length in Hr. lia.
+    + cbn [Pst map]. f_equal; [exact Hx|exact Hr].
+Qed.
+
+Lemma apply_attr_P line a f st1 st2 : Pst st1 = Pst st2 -> P_fres (apply_attr line a f st1) = P_fres (apply_attr line a f st2).
+Proof.
+  intros H. destruct a as [sp c|sp l|sp p|sp t]; cbn [apply_attr].
+  - destruct (is_plain_object _); [cbn; rewrite H; reflexivity|]. destruct (field_get_type _); cbn; [rewrite H|]; reflexivity.
+  - destruct (is_plain_object _); [cbn; rewrite H; reflexivity|]. destruct (field_get_type _); cbn; [rewrite H|]; reflexivity.
+  - cbn. rewrite H. reflexivity.
+  - cbv zeta. destruct (vf_attr f); cbn [P_fres]; try (rewrite H; reflexivity). rewrite (set_cell_pad_P _ _ _ _ H). reflexivity.
+Qed.
+
+Lemma P_fres_inv x y : P_fres x = P_fres y ->
+  (exists e, x = RPanic e /\ y = RPanic e) \/
+  (exists f st ds st', x = ROk (f, st, ds) /\ y = ROk (f, st', ds) /\ Pst st = Pst st').
+Proof.
+  destruct x as [[[f st] ds]|e]; destruct y as [[[f' st'] ds']|e']; cbn [P_fres]; intros H; inversion H; subst.
+  - right. exists f', st, ds', st'. auto.
+  - left. exists e'. auto.
+Qed.
+
+Lemma apply_attrs_P line attrs : forall f st1 st2, Pst st1 = Pst st2 -> P_fres (apply_attrs line attrs f st1) = P_fres (apply_attrs line attrs f st2).
+Proof.
+  induction attrs as [|a r IH]; intros f st1 st2 H; cbn [apply_attrs]; [cbn; rewrite H; reflexivity|].
+  destruct (P_fres_inv _ _ (apply_attr_P line a f st1 st2 H)) as [[e [-> ->]]|[f1 [s1 [ds1 [s2 [-> [-> Hs]]]]]]]; [reflexivity|].
+  destruct (P_fres_inv _ _ (IH f1 s1 s2 Hs)) as [[e [-> ->]]|[f2 [t1 [ds2 [t2 [-> [-> Ht]]]]]]]; [reflexivity|]. cbn. rewrite Ht. reflexivity.
+Qed.
+
+Definition P_gres (x : res (list vfield * list fcell * list diag)) : res (list vfield * list fcell * list diag) :=
+  match x with ROk (f, st, ds) => ROk (f, Pst st, ds) | RPanic e => RPanic e end.
+
+Lemma visit_field_def_P metas f : forall st1 st2, Pst st1 = Pst st2 -> P_fres (visit_field_def metas f st1) = P_fres (visit_field_def metas f st2).
+Proof.
+  induction f as [sp rep sp2 n o fields c comma IH|sp rep d|sp rep ft fn doc comma|sp d|sp d|sp d comma] using field_def_induction; intros st1 st2 H.
+  - rewrite !visit_inline_unfold.
+    assert (G : forall names s1 s2, Pst s1 = Pst s2 -> P_gres (inline_go metas (p_text n) fields s1 names) = P_gres (inline_go metas (p_text n) fields s2 names)).
+    { induction IH as [|x l Hx Hl IHl]; intros names s1 s2 Hs; [cbn; rewrite Hs; reflexivity|]. cbn [inline_go].
+      destruct (P_fres_inv _ _ (Hx s1 s2 Hs)) as [[e [-> ->]]|[v [t1 [ds1 [t2 [-> [-> Ht]]]]]]]; [reflexivity|].
+      specialize (IHl (vf_name v :: names) t1 t2 Ht).
+      destruct (inline_go metas (p_text n) l t1 _) as [[[vs u1] ds2]|e]; destruct (inline_go metas (p_text n) l t2 _) as [[[vs' u2] ds2']|e'];
+        cbn [P_gres] in IHl; try discriminate; [|exact IHl]. inversion IHl as [[Hv Hu Hd]]; subst. cbn [P_gres]. rewrite Hu. reflexivity. }
+    specialize (G [] st1 st2 H).
+    destruct (inline_go metas (p_text n) fields st1 []) as [[[subs u1] ds]|e]; destruct (inline_go metas (p_text n) fields st2 []) as [[[subs' u2] ds']|e'];
+      cbn [P_gres] in G; try discriminate; [|inversion G; reflexivity]. inversion G as [[Hv Hu Hd]]; subst. cbn [P_fres]. rewrite Hu. reflexivity.
+  - cbn [visit_field_def]. unfold meta_decl_field, meta_decl_attr. rewrite (Pst_length _ _ H).
+    destruct (md_type d); cbn [P_fres]; try (rewrite H; reflexivity). rewrite (Pst_snoc st1 st2 _ _ H eq_refl). reflexivity.
+  - cbn. rewrite H. reflexivity.
+  - cbn. rewrite H. reflexivity.
+  - cbn. rewrite H. reflexivity.
+  - cbn [visit_field_def]. destruct (visit_match_field d). cbn. rewrite H. reflexivity.
+Qed.
+
+Lemma fw_P metas fw st1 st2 : Pst st1 = Pst st2 -> P_fres (visit_field_with_attr metas fw st1) = P_fres (visit_field_with_attr metas fw st2).
+Proof.
+  intros H. unfold visit_field_with_attr.
+  destruct (P_fres_inv _ _ (visit_field_def_P metas (fw_def fw) st1 st2 H)) as [[e [-> ->]]|[f [s1 [ds [s2 [-> [-> Hs]]]]]]]; [reflexivity|].
+  destruct (P_fres_inv _ _ (apply_attrs_P (start_line (fw_span fw)) (fw_attrs fw) f s1 s2 Hs)) as [[e [-> ->]]|[f1 [t1 [ds1 [t2 [-> [-> Ht]]]]]]]; [reflexivity|].
+  cbn. rewrite Ht. reflexivity.
+Qed.
+
+(* ---- packets *)
+Definition Pacc (acc : pacc) : pacc :=
+  mkPacc (pa_fields acc) (pa_lines acc) (pa_fmap acc) (pa_lenf acc) (pa_mfs acc) (Pst (pa_store acc)) (pa_diags acc).
+
+Lemma loop1_add_P pn ir line f acc st ds :
+  Pacc (loop1_add pn ir line f acc st ds) = loop1_add pn ir line f (Pacc acc) (Pst st) ds.
+Proof.
+  unfold loop1_add, Pacc. cbn [pa_fields pa_lines pa_fmap pa_lenf pa_mfs pa_store pa_diags].
+  destruct (is_len_attr (vf_attr f)); [destruct (negb ir); [reflexivity|destruct (pa_lenf acc); reflexivity]|reflexivity].
+Qed.
+
+Definition P_accres (x : res pacc) : res pacc := match x with ROk a => ROk (Pacc a) | RPanic e => RPanic e end.
+
+Definition fw_P_ok (h : field_with_attr -> field_with_attr) : Prop :=
+  (forall fw, fw_span (h fw) = fw_span fw) /\
+  forall metas fw st1 st2, Pst st1 = Pst st2 -> P_fres (visit_field_with_attr metas (h fw) st1) = P_fres (visit_field_with_attr metas fw st2).
+
+Lemma loop1_P metas pn ir h l : fw_P_ok h ->
+  forall acc1 acc2, Pacc acc1 = Pacc acc2 -> P_accres (loop1 metas pn ir (map h l) acc1) = P_accres (loop1 metas pn ir l acc2).
+Proof.
+  intros [Hsp Hh]. induction l as [|fw l IH]; intros acc1 acc2 Ha; [cbn; rewrite Ha; reflexivity|]. cbn [map loop1]. rewrite Hsp.
+  assert (Hst : Pst (pa_store acc1) = Pst (pa_store acc2)). { change (pa_store (Pacc acc1) = pa_store (Pacc acc2)). rewrite Ha. reflexivity. }
+  destruct (P_fres_inv _ _ (Hh metas fw _ _ Hst)) as [[e [-> ->]]|[f [s1 [ds [s2 [-> [-> Hs]]]]]]]; [reflexivity|].
+  apply IH. rewrite !loop1_add_P, Ha, Hs. reflexivity.
+Qed.
+
+Definition P_pres (x : res (vpacket * list fcell * list diag)) : res (vpacket * list fcell * list diag) :=
+  match x with ROk (p, st, ds) => ROk (p, Pst st, ds) | RPanic e => RPanic e end.
+
+Lemma visit_packet_def_P metas pmap h d st1 st2 : fw_P_ok h -> Pst st1 = Pst st2 ->
+  P_pres (visit_packet_def metas pmap (map_packet_fws h d) st1) = P_pres (visit_packet_def metas pmap d st2).
+Proof.
+  intros Hh Hs. unfold visit_packet_def. cbn [map_packet_fws pd_fields pd_name pd_root pd_span].
+  assert (Ha : Pacc (mkPacc [] [] [] None [] st1 []) = Pacc (mkPacc [] [] [] None [] st2 [])) by (unfold Pacc; cbn [pa_fields pa_lines pa_fmap pa_lenf pa_mfs pa_store pa_diags]; rewrite Hs; reflexivity).
+  pose proof (loop1_P metas (p_text (pd_name d)) (is_some (pd_root d)) h (pd_fields d) Hh _ _ Ha) as H1.
+  destruct (loop1 metas _ _ (map h (pd_fields d)) _) as [a1|e1]; destruct (loop1 metas _ _ (pd_fields d) _) as [a2|e2]; cbn [P_accres] in H1; try discriminate;
+    [|inversion H1; reflexivity].
+  inversion H1 as [[Hf Hl Hm Hle Hmf Hst Hdg]]. rewrite Hf, Hl, Hm, Hle.
+  destruct (loop2 pmap _ _ _ _ _) as [[fields ds2]|e]; [|reflexivity]. cbn [P_pres]. rewrite Hmf, Hst, Hdg. reflexivity.
+Qed.
+
+Definition Ps (s : vst) : vst := mkSt (Pst (s_store s)) (s_metas s) (s_options s) (s_packets s) (s_root s) (s_diags s).
+Definition P_sres (x : res vst) : res vst := match x with ROk s => ROk (Ps s) | RPanic e => RPanic e end.
+
+Lemma add_packet_P s p : Ps (add_packet s p) = add_packet (Ps s) p.
+Proof.
+  destruct s as [st ms os ps ro ds]. unfold add_packet, Ps. cbn [s_store s_metas s_options s_packets s_root s_diags]. destruct (mem _ _); [reflexivity|].
+  destruct (vk_root p); [|reflexivity]. destruct ro; reflexivity.
+Qed.
+
+Lemma visit_packets_P h l : fw_P_ok h -> forall s1 s2, Ps s1 = Ps s2 ->
+  P_sres (visit_packets (map (map_packet_fws h) l) s1) = P_sres (visit_packets l s2).
+Proof.
+  intros Hh. induction l as [|d l IH]; intros s1 s2 Hs; [cbn; rewrite Hs; reflexivity|]. cbn [map visit_packets].
+  destruct s1 as [st1 ms1 os1 ps1 ro1 dg1]; destruct s2 as [st2 ms2 os2 ps2 ro2 dg2]. unfold Ps in Hs. cbn [s_store s_metas s_options s_packets s_root s_diags] in *.
+  injection Hs as Hst Hme Hop Hpk Hro Hdg. subst ms2 os2 ps2 ro2 dg2.
+  pose proof (visit_packet_def_P ms1 (Visitor.packet_names ps1) h d _ _ Hh Hst) as H1.
+  destruct (visit_packet_def _ _ (map_packet_fws h d) _) as [[[p1 t1] ds1]|e1]; destruct (visit_packet_def _ _ d _) as [[[p2 t2] ds2]|e2];
+    cbn [P_pres] in H1; try discriminate; [|inversion H1; reflexivity].
+  injection H1 as Hp Ht Hd. subst p2 ds2. apply IH. rewrite !add_packet_P. f_equal. unfold Ps. cbn [s_store s_metas s_options s_packets s_root s_diags].
+  rewrite Ht. reflexivity.
+Qed.
+
+Definition P_result (r : result) : result :=
+  mkResult (Pst (r_store r)) (r_metas r) (r_options r) (r_config r) (r_packets r) (r_root r) (r_diags r).
+Definition P_outcome (o : outcome) : outcome := match o with VOk r => VOk (P_result r) | VPanic e => VPanic e end.
+
+Lemma finish_P s : P_result (finish s) = finish (Ps s).
+Proof. unfold finish, Ps. cbn [s_store s_metas s_options s_packets s_root s_diags]. destruct (resolve_packets _ _). reflexivity. Qed.
+
+Theorem visit_fws_P h t : fw_P_ok h -> P_outcome (visit (on_fws h t)) = P_outcome (visit t).
+Proof.
+  intros Hh. rewrite on_fws_dm. unfold visit, phase_options, phase_metas. rewrite metas_of_map, options_of_map, packets_of_map.
+  cbn [dm_fws dm_meta dm_option dm_packet]. rewrite !map_id.
+  pose proof (visit_packets_P h (packets_of t) Hh _ _ (eq_refl (Ps (fold_left visit_option_def (options_of t) (fold_left visit_meta_def (metas_of t) st0))))) as H3.
+  destruct (visit_packets (map (map_packet_fws h) (packets_of t)) _) as [s'|e']; destruct (visit_packets (packets_of t) _) as [s|e]; cbn [P_sres] in H3; try discriminate;
+    [|inversion H3; reflexivity].
+  assert (Hs : Ps s' = Ps s) by congruence. cbn [P_outcome]. rewrite !finish_P, Hs. reflexivity.
+Qed.
+
+(* ---- stores that agree after Pst give the same normalised model when the configured padding is the default *)
+Lemma nth_error_P st1 st2 c : Pst st1 = Pst st2 -> option_map Pc (nth_error st1 c) = option_map Pc (nth_error st2 c).
+Proof. intros H. unfold Pst in H. rewrite <- !nth_error_map, H. reflexivity. Qed.
+
+Lemma cell_attr_P st1 st2 c : Pst st1 = Pst st2 ->
+  Spelling.norm_attr (Some dpad) (cell_attr st1 c) = Spelling.norm_attr (Some dpad) (cell_attr st2 c) /\
+  (cell_attr st1 c = BModel.ANil <-> cell_attr st2 c = BModel.ANil).
+Proof.
+  intros H. pose proof (nth_error_P st1 st2 c H) as Hn. unfold cell_attr.
+  destruct (nth_error st1 c) as [c1|]; destruct (nth_error st2 c) as [c2|]; cbn [option_map] in Hn; try discriminate; [|split; [reflexivity|tauto]].
+  injection Hn as Hl Hp. split; [|split; discriminate]. cbn [Spelling.norm_attr]. rewrite Hl. f_equal.
+  destruct (fc_pad c1); destruct (fc_pad c2); congruence.
+Qed.
+
+Lemma shallow_P st1 st2 a : Pst st1 = Pst st2 ->
+  Spelling.norm_attr (Some dpad) (attr_shallow st1 a) = Spelling.norm_attr (Some dpad) (attr_shallow st2 a) /\
+  (attr_shallow st1 a = BModel.ANil <-> attr_shallow st2 a = BModel.ANil).
+Proof.
+  intros H. destruct a as [t|c| |tg t|alg t|i pn r p|k ps|]; cbn [attr_shallow]; try (split; [reflexivity|tauto]). apply cell_attr_P. exact H.
+Qed.
+
+Lemma nb_P st1 st2 : Pst st1 = Pst st2 ->
+  (forall a ctx, Spelling.norm_attr (Some dpad) (attr_to_b st1 ctx a) = Spelling.norm_attr (Some dpad) (attr_to_b st2 ctx a)) /\
+  (forall p, Spelling.norm_packet (Some dpad) (packet_to_b st1 p) = Spelling.norm_packet (Some dpad) (packet_to_b st2 p)).
+Proof.
+  intros H. set (cp := Some dpad).
+  set (Pa := fun a => forall ctx, Spelling.norm_attr cp (attr_to_b st1 ctx a) = Spelling.norm_attr cp (attr_to_b st2 ctx a)).
+  set (Pp := fun p => Spelling.norm_packet cp (packet_to_b st1 p) = Spelling.norm_packet cp (packet_to_b st2 p)).
+  assert (H1 : forall t, Pa (VABasic t)) by (intros t ctx; reflexivity).
+  assert (H2 : forall c, Pa (VAFixed c)). { intros c ctx. cbn [attr_to_b attr_shallow]. apply cell_attr_P. exact H. }
+  assert (H3 : Pa VADyn) by (intros ctx; reflexivity).
+  assert (H4 : forall tg t, Pa (VALen tg t)) by (intros tg t ctx; reflexivity).
+  assert (H5 : forall alg t, Pa (VACheck alg t)) by (intros alg t ctx; reflexivity).
+  assert (H6 : forall i pn r, Pa (VAObj i pn r None)) by (intros i pn r ctx; reflexivity).
+  assert (H7 : forall i pn r p, Pp p -> Pa (VAObj i pn r (Some p))).
+  { intros i pn r p IH ctx. unfold Pp in IH. cbn [attr_to_b Spelling.norm_attr]. rewrite IH. reflexivity. }
+  assert (H8 : forall k ps, Pa (VAMatch k ps)).
+  { intros k ps ctx. unfold cp. cbn [attr_to_b]. destruct k as [n|i n|]; try reflexivity. destruct (nth_error ctx i) as [kf|]; [|reflexivity].
+    destruct (shallow_P st1 st2 (vf_attr kf) H) as [Hn Hnil].
+    destruct (attr_shallow st1 (vf_attr kf)) eqn:Ha; destruct (attr_shallow st2 (vf_attr kf)) eqn:Hb;
+      try (exfalso; destruct Hnil as [G1 G2]; (discriminate (G1 eq_refl) || discriminate (G2 eq_refl)));
+      cbn [Spelling.norm_attr] in *; try reflexivity; try (rewrite <- Hn; reflexivity); try (rewrite Hn; reflexivity); try discriminate Hn. }
+  assert (H9 : Pa VANil) by (intros ctx; reflexivity).
+  assert (H10 : forall n ro lf fs fm mf ln, Forall (fun f => Pa (vf_attr f)) fs -> Pp (mkVPacket n ro lf fs fm mf ln)).
+  { intros n ro lf fs fm mf ln IH. unfold Pp. rewrite !packet_to_b_eq, !NormGen.norm_packet_eq.
+    cbn [BModel.p_name BModel.p_root BModel.p_lenf BModel.p_fields BModel.p_mfs]. f_equal. rewrite !map_map.
+    assert (G : forall ctx, map (fun x => NormGen.nf cp (field_to_b st1 ctx x)) fs = map (fun x => NormGen.nf cp (field_to_b st2 ctx x)) fs).
+    { intros ctx. induction IH as [|f fs Hf Hfs IHfs]; [reflexivity|]. cbn [map]. f_equal; [|exact IHfs].
+      unfold NormGen.nf, field_to_b. cbn [BModel.f_name BModel.f_attr BModel.f_len BModel.f_rep]. f_equal. apply Hf. }
+    apply G. }
+  split; [exact (vattr_ind2 Pa Pp H1 H2 H3 H4 H5 H6 H7 H8 H9 H10)|exact (vpacket_ind2 Pa Pp H1 H2 H3 H4 H5 H6 H7 H8 H9 H10)].
+Qed.
+
+Theorem P_same_meaning r r' :
+  r_diags r = [] -> BModel.c_pad (r_config r) = Some dpad -> P_result r' = P_result r -> same_meaning r r' = true.
+Proof.
+  intros Hd Hc He. unfold P_result in He. injection He as Hst Hme Hop Hcf Hpk Hro Hdg.
+  unfold same_meaning. rewrite Hdg, Hd. apply NormGen.bmodel_eqb_complete. unfold NormGen.same_but_names, norm_bmodel, to_bmodel, to_bmodel_names.
+  cbn [BModel.m_cfg BModel.m_packets BModel.m_map_keys BModel.m_root]. rewrite Hcf, Hro, Hpk, Hc. repeat split.
+  rewrite !map_map. apply map_ext. intros p. apply (proj2 (nb_P _ _ (eq_sym Hst))).
+Qed.
+
+(* ---- no padding option: the configured padding is the default *)
+Lemma padding_option_unset t : padding_option_set t = false ->
+  mem "FixedStringPadChar" (declared_options t) = false /\ mem "FixedStringPadFromLeft" (declared_options t) = false.
+Proof.
+  unfold padding_option_set, declared_options. induction (pk_defs t) as [|d ds IH]; [split; reflexivity|]. cbn [existsb flat_map]. intros H.
+  apply orb_false_iff in H. destruct H as [Hd Hds]. destruct (IH Hds) as [I1 I2]. unfold mem in *. rewrite !existsb_app, I1, I2, !orb_false_r.
+  destruct d as [p|m|o]; try (split; reflexivity). clear - Hd. induction (op_decls o) as [|x xs IHx]; [split; reflexivity|]. cbn [existsb map] in *.
+  apply orb_false_iff in Hd. destruct Hd as [Hx Hxs]. apply orb_false_iff in Hx. destruct Hx as [Hx1 Hx2]. destruct (IHx Hxs) as [J1 J2].
+  rewrite J1, J2, !orb_false_r. rewrite String.eqb_sym, Hx1. rewrite (String.eqb_sym "FixedStringPadFromLeft"), Hx2. split; reflexivity.
+Qed.
+
+Lemma default_config t r : padding_option_set t = false -> visit t = VOk r -> BModel.c_pad (r_config r) = Some dpad.
+Proof.
+  intros Hp Hv. destruct (padding_option_unset t Hp) as [H1 H2]. unfold visit in Hv.
+  destruct (visit_packets (packets_of t) _) as [s|e] eqn:Hvp; [|discriminate]. injection Hv as Hr. subst r.
+  pose proof (visit_packets_options _ _ _ Hvp) as Hso. unfold finish. destruct (resolve_packets _ _) as [ps ds]. cbn [r_config].
+  unfold new_configuration. cbn [BModel.c_pad]. rewrite Hso, (undeclared_not_set t _ H1), (undeclared_not_set t _ H2). reflexivity.
+Qed.
+
+Theorem preserves_of_P t t' r : padding_option_set t = false -> P_outcome (visit t') = P_outcome (visit t) ->
+  visit t = VOk r -> r_diags r = [] -> exists r', visit t' = VOk r' /\ same_meaning r r' = true.
+Proof.
+  intros Hp He Hv Hd. rewrite Hv in He. destruct (visit t') as [r'|e]; [|discriminate]. exists r'. split; [reflexivity|].
+  cbn [P_outcome] in He. assert (He' : P_result r' = P_result r) by congruence. clear He. rename He' into He. apply P_same_meaning; [exact Hd|exact (default_config t r Hp Hv)|exact He].
+Qed.
+
+(* ---- the attributes of a char[n] field *)
+Definition pad_val (p : padding_attr) : BModel.padding :=
+  let pc := match pa_padding p with Some t => p_text t | None => "' '" end in
+  let pc := if String.eqb pc "'\x00'" then nul_pad_char else pc in
+  BModel.mkPad pc (containsb "left" (p_text (pa_attr p))).
+Definition is_tag (a : field_attribute) : bool := match a with FATag _ _ => true | _ => false end.
+Definition pad_or_tag (a : field_attribute) : bool := is_pad a || is_tag a.
+Definition final_pad (attrs : list field_attribute) (pad : option BModel.padding) : option BModel.padding :=
+  fold_left (fun acc a => match a with FAPadding _ p => Some (pad_val p) | _ => acc end) attrs pad.
+Definition tagged (attrs : list field_attribute) (f : vfield) : vfield :=
+  fold_left (fun f a => match a with FATag _ t => set_tag f (atoi (p_text (ta_digits t))) | _ => f end) attrs f.
+
+Lemma set_tag_attr f t : vf_attr (set_tag f t) = vf_attr f. Proof. destruct f; reflexivity. Qed.
+
+Lemma apply_pads_tags line st n : forall attrs f pad, vf_attr f = VAFixed (length st) -> forallb pad_or_tag attrs = true ->
+  apply_attrs line attrs f (snoc st (mkCell n pad)) = ROk (tagged attrs f, snoc st (mkCell n (final_pad attrs pad)), []).
+Proof.
+  induction attrs as [|a r IH]; intros f pad Hf Hall; [reflexivity|]. cbn [forallb] in Hall. apply andb_true_iff in Hall. destruct Hall as [Ha Hr].
+  cbn [apply_attrs]. destruct a as [sp l|sp c|sp t|sp p]; try discriminate Ha.
+  - cbn [apply_attr]. rewrite (IH _ pad (eq_trans (set_tag_attr _ _) Hf) Hr). reflexivity.
+  - cbn [apply_attr]. cbv zeta. rewrite Hf, set_cell_pad_last. cbn [fc_len]. rewrite (IH f _ Hf Hr). reflexivity.
+Qed.
+
+Definition non_pad (x : field_attribute) : bool := negb (is_pad x).
+
+Lemma tagged_filter attrs : forall f, tagged (filter non_pad attrs) f = tagged attrs f.
+Proof. induction attrs as [|a r IH]; intros f; [reflexivity|]. destruct a; cbn [filter non_pad is_pad negb tagged fold_left]; apply IH. Qed.
+Lemma final_pad_filter attrs : forall pad, final_pad (filter non_pad attrs) pad = pad.
+Proof. induction attrs as [|a r IH]; intros pad; [reflexivity|]. destruct a; cbn [filter non_pad is_pad negb final_pad fold_left]; apply IH. Qed.
+Lemma pad_or_tag_filter attrs : forallb pad_or_tag attrs = true -> forallb pad_or_tag (filter non_pad attrs) = true.
+Proof.
+  induction attrs as [|a r IH]; [reflexivity|]. cbn [forallb]. intros H. apply andb_true_iff in H. destruct H as [Ha Hr].
+  destruct a; cbn [filter non_pad is_pad negb forallb pad_or_tag is_tag orb andb] in *; try discriminate Ha; apply IH; exact Hr.
+Qed.
+
+Lemma last_some {A} (l : list A) : last (map Some l) None = match l with [] => None | x :: _ => Some (last l x) end.
+Proof.
+  induction l as [|x l IH]; [reflexivity|]. cbn [map]. destruct l as [|y l]; [reflexivity|]. change (last (Some x :: map Some (y :: l)) None) with (last (map Some (y :: l)) None).
+  rewrite IH. cbn [last]. f_equal. destruct l; [reflexivity|]. clear. revert y. generalize a. induction l as [|z l IHl]; intros b y; [reflexivity|]. apply (IHl z).
+Qed.
+
+Lemma last_pad_cons a r : last_pad (a :: r) = if is_pad a then match last_pad r with Some x => Some x | None => Some a end else last_pad r.
+Proof.
+  unfold last_pad. cbn [filter]. destruct (is_pad a); [|reflexivity]. rewrite !last_some. destruct (filter is_pad r) as [|y l]; [reflexivity|].
+  f_equal. cbn [last]. destruct l; [reflexivity|]. clear. revert y. generalize f. induction l as [|z l IHl]; intros b y; [reflexivity|]. apply (IHl z).
+Qed.
+
+Lemma last_pad_none attrs : last_pad attrs = None -> forall pad, final_pad attrs pad = pad.
+Proof.
+  induction attrs as [|a r IH]; intros H pad; [reflexivity|]. rewrite last_pad_cons in H. destruct a; cbn [is_pad] in H; cbn [final_pad fold_left];
+    try (apply IH; exact H). destruct (last_pad r); discriminate H.
+Qed.
+
+Lemma default_pad_val sp p : is_default_pad (FAPadding sp p) = true -> pad_val p = dpad.
+Proof.
+  cbn [is_default_pad]. intros H. apply andb_true_iff in H. destruct H as [Ha Hc]. apply String.eqb_eq in Ha. unfold pad_val. rewrite Ha.
+  destruct (pa_padding p) as [c|]; [apply String.eqb_eq in Hc; rewrite Hc|]; reflexivity.
+Qed.
+
+Lemma final_pad_default attrs : forall a pad, last_pad attrs = Some a -> is_default_pad a = true -> final_pad attrs pad = Some dpad.
+Proof.
+  induction attrs as [|a0 r IH]; intros a pad H Hd; [discriminate H|]. rewrite last_pad_cons in H. cbn [final_pad fold_left].
+  destruct (last_pad r) as [x|] eqn:Hl.
+  - assert (Hx : x = a) by (destruct (is_pad a0); congruence). subst x. apply (IH a _ eq_refl Hd).
+  - destruct a0 as [sp l|sp c|sp t|sp p]; cbn [is_pad] in H; try discriminate H. injection H as H. subst a.
+    fold (final_pad r (Some (pad_val p))). rewrite (last_pad_none r Hl), (default_pad_val sp p Hd). reflexivity.
+Qed.
+
+(* ---- rw_drop_default_pad, rw_add_default_pad *)
+Definition char_wf (f : field_def) : bool :=
+  match f with MetaField _ _ d => negb (containsb "zchar" (type_text (md_type d))) | _ => true end.
+
+Definition h_drop (fw : field_with_attr) : field_with_attr :=
+  if is_char_field (fw_def fw) then
+    match last_pad (fw_attrs fw) with
+    | Some a => if is_default_pad a
+                then mkFieldWithAttr (fw_span fw) (filter (fun x => negb (is_pad x)) (fw_attrs fw)) (fw_def fw)
+                else fw
+    | None => fw
+    end
+  else fw.
+
+Definition h_add (fw : field_with_attr) : field_with_attr :=
+  if is_char_field (fw_def fw) && negb (existsb is_pad (fw_attrs fw))
+  then mkFieldWithAttr (fw_span fw) (mk_pad_attr (first_tok_fd (fw_def fw)) "@rightPad" (Some "' '") :: fw_attrs fw) (fw_def fw)
+  else fw.
+
+Lemma rw_drop_default_pad_eq t : rw_drop_default_pad t = if padding_option_set t then t else on_fws h_drop t.
+Proof. reflexivity. Qed.
+Lemma rw_add_default_pad_eq t : rw_add_default_pad t = if padding_option_set t then t else on_fws h_add t.
+Proof. reflexivity. Qed.
+
+(* the field is a char[n] whose text does not say zchar, and (drop) its attributes are paddings and tags only: a padding
+   written after @lengthOf/@calculatedFrom is refused with a diagnostic, which the rewrite would remove *)
+Definition drop_ok (fw : field_with_attr) : bool :=
+  if is_char_field (fw_def fw) then
+    match last_pad (fw_attrs fw) with
+    | Some a => if is_default_pad a then char_wf (fw_def fw) && forallb pad_or_tag (fw_attrs fw) else true
+    | None => true
+    end
+  else true.
+
+Definition add_ok (fw : field_with_attr) : bool :=
+  if is_char_field (fw_def fw) && negb (existsb is_pad (fw_attrs fw)) then char_wf (fw_def fw) else true.
+
+Lemma char_field_visit metas sp rep d (st : list fcell) : is_char_field (MetaField sp rep d) = true -> char_wf (MetaField sp rep d) = true ->
+  exists n f, (forall st' : list fcell, length st' = length st -> visit_field_def metas (MetaField sp rep d) st' = ROk (f, snoc st' (mkCell n None), [])) /\
+              vf_attr f = VAFixed (length st).
+Proof.
+  cbn [is_char_field char_wf]. intros Hc Hw. apply negb_true_iff in Hw. destruct (md_type d) as [|tsp fx|] eqn:Hty; try discriminate Hc.
+  eexists. eexists. split.
+  - intros st' Hl. cbn [visit_field_def]. unfold meta_decl_field, meta_decl_attr. rewrite Hty, Hw, Hl. reflexivity.
+  - reflexivity.
+Qed.
+
+Lemma drop_P_ok : fw_P_ok (guarded_fw drop_ok h_drop).
+Proof.
+  split.
+  - intros fw. unfold guarded_fw, h_drop. destruct (drop_ok fw); [|reflexivity]. destruct (is_char_field _); [|reflexivity].
+    destruct (last_pad _) as [a|]; [|reflexivity]. destruct (is_default_pad a); reflexivity.
+  - intros metas fw st1 st2 H. unfold guarded_fw. destruct (drop_ok fw) eqn:Hok; [|apply fw_P; exact H]. unfold drop_ok, h_drop in *.
+    destruct (is_char_field (fw_def fw)) eqn:Hc; [|apply fw_P; exact H]. destruct (last_pad (fw_attrs fw)) as [a|] eqn:Hl; [|apply fw_P; exact H].
+    destruct (is_default_pad a) eqn:Hd; [|apply fw_P; exact H]. apply andb_true_iff in Hok. destruct Hok as [Hw Hall].
+    destruct (fw_def fw) as [| sp rep d | | | |] eqn:Hdef; try discriminate Hc.
+    destruct (char_field_visit metas sp rep d st2 Hc Hw) as [n [f [Hv Hf]]].
+    unfold visit_field_with_attr. cbn [fw_def fw_attrs fw_span]. rewrite Hdef, (Hv st1 (Pst_length _ _ H)), (Hv st2 eq_refl).
+    change (fun x => negb (is_pad x)) with non_pad.
+    rewrite (apply_pads_tags _ st1 n _ f None (eq_trans Hf (f_equal VAFixed (eq_sym (Pst_length _ _ H)))) (pad_or_tag_filter _ Hall)).
+    rewrite (apply_pads_tags _ st2 n _ f None Hf Hall).
+    cbn [P_fres app]. rewrite tagged_filter, final_pad_filter, (final_pad_default _ a None Hl Hd), (Pst_snoc st1 st2 (mkCell n None) (mkCell n (Some dpad)) H eq_refl).
+    reflexivity.
+Qed.
+
+Lemma add_P_ok : fw_P_ok (guarded_fw add_ok h_add).
+Proof.
+  split.
+  - intros fw. unfold guarded_fw, h_add. destruct (add_ok fw); [|reflexivity]. destruct (_ && _); reflexivity.
+  - intros metas fw st1 st2 H. unfold guarded_fw. destruct (add_ok fw) eqn:Hok; [|apply fw_P; exact H]. unfold add_ok, h_add in *.
+    destruct (is_char_field (fw_def fw) && negb (existsb is_pad (fw_attrs fw))) eqn:Hc; [|apply fw_P; exact H].
+    apply andb_true_iff in Hc. destruct Hc as [Hc _].
+    destruct (fw_def fw) as [| sp rep d | | | |] eqn:Hdef; try discriminate Hc.
+    destruct (char_field_visit metas sp rep d st2 Hc Hok) as [n [f [Hv Hf]]].
+    unfold visit_field_with_attr. cbn [fw_def fw_attrs fw_span]. rewrite Hdef, (Hv st1 (Pst_length _ _ H)), (Hv st2 eq_refl).
+    cbn [apply_attrs]. unfold mk_pad_attr. cbn [apply_attr pa_padding pa_attr option_map retok p_text]. cbv zeta.
+    rewrite Hf, <- (Pst_length _ _ H), set_cell_pad_last. cbn [fc_len].
+    assert (Hs : Pst (snoc st1 (mkCell n (Some (BModel.mkPad (if String.eqb "' '" "'\x00'" then nul_pad_char else "' '") (containsb "left" "@rightPad"))))) =
+                 Pst (snoc st2 (mkCell n None))) by (apply Pst_snoc; [exact H|reflexivity]).
+    destruct (P_fres_inv _ _ (apply_attrs_P (start_line (fw_span fw)) (fw_attrs fw) f _ _ Hs)) as [[e [-> ->]]|[f1 [t1 [ds1 [t2 [-> [-> Ht]]]]]]]; [reflexivity|].
+    cbn [P_fres app]. rewrite Ht. reflexivity.
+Qed.
+
+Definition drop_default_pad_guard (t : pt) : bool := padding_option_set t || fws_all drop_ok t.
+Definition add_default_pad_guard (t : pt) : bool := padding_option_set t || fws_all add_ok t.
+
+Theorem rw_drop_default_pad_preserves : forall t r, visit t = VOk r -> r_diags r = [] -> drop_default_pad_guard t = true ->
+  exists r', visit (rw_drop_default_pad t) = VOk r' /\ same_meaning r r' = true.
+Proof.
+  intros t r Hv Hd Hg. rewrite rw_drop_default_pad_eq. unfold drop_default_pad_guard in Hg. destruct (padding_option_set t) eqn:Hp.
+  - exists r. split; [exact Hv|apply same_meaning_refl; exact Hd].
+  - cbn [orb] in Hg. apply (preserves_of_P t _ r Hp); [|exact Hv|exact Hd]. rewrite <- (on_fws_guarded drop_ok) by exact Hg. apply visit_fws_P. exact drop_P_ok.
+Qed.
+
+Theorem rw_add_default_pad_preserves : forall t r, visit t = VOk r -> r_diags r = [] -> add_default_pad_guard t = true ->
+  exists r', visit (rw_add_default_pad t) = VOk r' /\ same_meaning r r' = true.
+Proof.
+  intros t r Hv Hd Hg. rewrite rw_add_default_pad_eq. unfold add_default_pad_guard in Hg. destruct (padding_option_set t) eqn:Hp.
+  - exists r. split; [exact Hv|apply same_meaning_refl; exact Hd].
+  - cbn [orb] in Hg. apply (preserves_of_P t _ r Hp); [|exact Hv|exact Hd]. rewrite <- (on_fws_guarded add_ok) by exact Hg. apply visit_fws_P. exact add_P_ok.
+Qed.
+
 
 
 (* ------------------------------------------------------------------ witnesses (from the real parser, through the hook) *)
@@ -2003,12 +2426,12 @@ Lemma alias_long_opts_unguarded_refuted :
   same_meaning_o (visit w_dyn_option) (visit (rw_alias_long_opts w_dyn_option)) = false.
 Proof. split; [eexists; split; [vm_compute; reflexivity|reflexivity]|split; vm_compute; reflexivity]. Qed.
 
-(* `MetaData M { u32 len, } root packet A { u16 len @lengthOf(x), u8 x, }`: the inline length declaration looks its own
-   NAME up in the MetaData table and takes that entry's type (u32); the prefixed form keeps the declared u16 *)
-Lemma prefix_attr_refuted_name_like_meta :
-  (exists r, visit w_len_named_like_meta = VOk r /\ r_diags r = []) /\
-  same_meaning_o (visit w_len_named_like_meta) (visit (rw_prefix_attr w_len_named_like_meta)) = false.
-Proof. split; [eexists; split; [vm_compute; reflexivity|reflexivity]|vm_compute; reflexivity]. Qed.
+(* `MetaData M { u32 len, } root packet A { u16 len @lengthOf(x), u8 x, }`: the written type of the inline length declaration
+   is kept although a MetaData entry has the name of the field (it was not: recorded as fixed) *)
+Lemma prefix_attr_name_like_meta :
+  (exists r, visit w_len_named_like_meta = VOk r /\ r_diags r = []) /\ prefix_attr_guard w_len_named_like_meta = true /\
+  same_meaning_o (visit w_len_named_like_meta) (visit (rw_prefix_attr w_len_named_like_meta)) = true.
+Proof. split; [eexists; split; [vm_compute; reflexivity|reflexivity]|split; vm_compute; reflexivity]. Qed.
 
 (* `packet A { char[4] c @calculatedFrom("X"), }`: inline, the checksum field has type "char[4]"; prefixed, "string" *)
 Lemma prefix_attr_refuted_fixed_string :
@@ -2036,6 +2459,21 @@ Theorem rw_prefix_attr_same_code : forall l names t r, visit t = VOk r -> r_diag
   exists r', visit (rw_prefix_attr t) = VOk r' /\ Frag.gen_of l (to_bmodel_names names r) = Frag.gen_of l (to_bmodel_names names r').
 Proof. exact (same_code_of_preserves _ _ preserves_prefix_attr). Qed.
 Example rw_prefix_attr_example : nonvacuous prefix_attr_guard rw_prefix_attr w_spelling. Proof. nonvac. Qed.
-Lemma prefix_attr_guard_excludes_refuted :
-  prefix_attr_guard w_len_named_like_meta = false /\ prefix_attr_guard w_fixed_checksum = false.
-Proof. split; vm_compute; reflexivity. Qed.
+Lemma prefix_attr_guard_excludes_refuted : prefix_attr_guard w_fixed_checksum = false.
+Proof. vm_compute; reflexivity. Qed.
+
+Lemma preserves_drop_default_pad : preserves drop_default_pad_guard rw_drop_default_pad.
+Proof. exact rw_drop_default_pad_preserves. Qed.
+Theorem rw_drop_default_pad_same_code : forall l names t r, visit t = VOk r -> r_diags r = [] -> drop_default_pad_guard t = true ->
+  exists r', visit (rw_drop_default_pad t) = VOk r' /\ Frag.gen_of l (to_bmodel_names names r) = Frag.gen_of l (to_bmodel_names names r').
+Proof. exact (same_code_of_preserves _ _ preserves_drop_default_pad). Qed.
+Example rw_drop_default_pad_example : nonvacuous drop_default_pad_guard rw_drop_default_pad w_spelling. Proof. nonvac. Qed.
+
+Lemma preserves_add_default_pad : preserves add_default_pad_guard rw_add_default_pad.
+Proof. exact rw_add_default_pad_preserves. Qed.
+Theorem rw_add_default_pad_same_code : forall l names t r, visit t = VOk r -> r_diags r = [] -> add_default_pad_guard t = true ->
+  exists r', visit (rw_add_default_pad t) = VOk r' /\ Frag.gen_of l (to_bmodel_names names r) = Frag.gen_of l (to_bmodel_names names r').
+Proof. exact (same_code_of_preserves _ _ preserves_add_default_pad). Qed.
+(* w_spelling has no char[n] field without padding: its form without the default padding has (char[2] p) *)
+Definition w_spelling_unpadded : pt := rw_drop_default_pad w_spelling.
+Example rw_add_default_pad_example : nonvacuous add_default_pad_guard rw_add_default_pad w_spelling_unpadded. Proof. nonvac. Qed.
